@@ -1,10 +1,10 @@
 package main
 
 import (
-	"sort"
-	"regexp"
 	"go/token"
 	"go/types"
+	"regexp"
+	"sort"
 	"strings"
 
 	"golang.org/x/tools/go/ssa"
@@ -133,6 +133,46 @@ func checkC15(c *Check) {
 				okVal = false
 			}
 		}
+		// the pair computed by a new helper (channel, value): judged at each of the helper's returns
+		if call, k := callOf(st.Chan); call != nil && k >= 0 {
+			if call2, k2 := callOf(st.Send); call2 == call && k2 >= 0 && k2 != k {
+				if g := newHelperCallee(call); g != nil && transparentSite(g) == ssa.CallInstruction(call) {
+					okChan, okVal = true, true
+					n := 0
+					for _, b := range g.Blocks {
+						r, isRet := b.Instrs[len(b.Instrs)-1].(*ssa.Return)
+						if !isRet {
+							continue
+						}
+						if isNilConst(stripConv(r.Results[k])) {
+							continue // output disabled: the value is not offered
+						}
+						n++
+						if !strings.HasSuffix(nrm(Sym(r.Results[k])), "p:b.eventch") {
+							okChan = false
+						}
+						nonEmpty, mode := false, false
+						for _, a := range factsAt(b) {
+							if a.Op == ">" && nrm(Sym(a.X)) == "builtin.len(p:b.evbuf)" && Sym(a.Y) == "0" {
+								nonEmpty = true
+							}
+							if a.Op == "neq" && nrm(Sym(a.X)) == "p:b.eventch" && isNilConst(a.Y) {
+								mode = true
+							}
+						}
+						if !nonEmpty || !mode {
+							okChan = false
+						}
+						if nrm(Sym(r.Results[k2])) != "p:b.evbuf[0]" {
+							okVal = false
+						}
+					}
+					if n == 0 {
+						okChan, okVal = false, false
+					}
+				}
+			}
+		}
 		c.Ob("R2", "output is offered only in subscriber mode with a non-empty buffer", sel.Pos(), okChan, "the emitting case can be enabled with an empty buffer or on a non-subscriber bus")
 		c.Ob("R2", "the only value ever offered to the reader is the head of the buffer", sel.Pos(), okVal, "a value other than evbuf[0] can be sent to the subscriber (reordering / duplication)")
 	}
@@ -240,7 +280,7 @@ func checkC15(c *Check) {
 		g := grow[0]
 		okGrow = domLift(home, pb, g)
 		call := g.Val.(*ssa.Call)
-		ev := Sym(call.Call.Args[1])
+		ev := Sym(callerValue(call.Call.Args[1]))
 		okGrow = okGrow && strings.Contains(ev, "Select#") && strings.HasPrefix(ev, "[")
 		mode := false
 		for _, a := range factsAt(g.Block()) {
@@ -431,19 +471,19 @@ func checkC15(c *Check) {
 		if ok {
 			// notify only after the wait loop's exit condition (len(subscriptions) > 0 false)
 			waited := false
-			for _, a := range factsAt(notify.Block()) {
-				if a.Op == "<=" && nrm(Sym(a.X)) == "builtin.len(p:b.subscriptions)" && Sym(a.Y) == "0" {
-					waited = true
-				}
-			}
+			// "no subscriptions left": len <= 0, len == 0 or len < 1
 			drained := func(f []Atom) bool {
 				for _, a := range f {
-					if a.Op == "<=" && nrm(Sym(a.X)) == "builtin.len(p:b.subscriptions)" && Sym(a.Y) == "0" {
+					if a.Y == nil || nrm(Sym(a.X)) != "builtin.len(p:b.subscriptions)" {
+						continue
+					}
+					if ((a.Op == "<=" || a.Op == "eq") && Sym(a.Y) == "0") || (a.Op == "<" && Sym(a.Y) == "1") {
 						return true
 					}
 				}
 				return false
 			}
+			waited = drained(factsAt(notify.Block()))
 			if !waited {
 				// the wait loop may live in a new helper called before the notification: every return of that helper
 				// is then past the loop's exit condition
